@@ -7,7 +7,7 @@
 
 use crate::ctx::RunCtx;
 use crate::driver::{drop_chunks, RunOut, Scenario, Tier, Violation};
-use crate::raftsim::{image, mk_block, msg_brief, msg_kind, role_str, Cluster, Ent, Image};
+use crate::raftsim::{image, mk_block, msg_brief, msg_term, msg_kind, role_str, Cluster, Ent, Image};
 use crate::rng::Rng;
 use serde::{Deserialize, Serialize};
 use serde_json::{json, Value};
@@ -42,7 +42,19 @@ pub enum Step {
     /// beside the message loop). a/b: 0 = deliver the picked in-flight message
     /// addressed to that node, 1 = propose, 2 = send heartbeats, 3 = tick.
     /// Every lock acquisition inside raft.rs is a schedule point (sync_compat).
-    Concurrent { node: u8, a: u8, b: u8, pick_a: u16, pick_b: u16, sched: Vec<u8> },
+    Concurrent {
+        node: u8,
+        a: u8,
+        b: u8,
+        pick_a: u16,
+        pick_b: u16,
+        sched: Vec<u8>,
+        /// 1: aim at a stale leader — a node that still acts as leader while a
+        /// deliverable message of a higher term is addressed to it (that message
+        /// is the one delivered); falls back to `node` when there is none
+        #[serde(default)]
+        target: u8,
+    },
     /// nth = None: between steps; Some(k): inside the k-th mutating syscall of that node from now
     Crash { node: u8, nth: Option<u8>, bytes: Option<u8>, cut: u8 },
     Restart { node: u8 },
@@ -93,6 +105,21 @@ fn viol(class: &str, detail: String) -> Violation {
 }
 
 impl Oracle {
+    /// Node `x` sent AppendEntries{term: t, leader_id: x}.
+    fn acted_as_leader(&mut self, x: usize, t: u64, ids: &[String]) -> Result<(), Violation> {
+        match self.leaders.get(&t) {
+            Some(&y) if y != x => Err(viol(
+                "two-leaders-in-one-term",
+                format!("{} sent AppendEntries as leader of term {t}, a term in which {} acted as leader", ids[x], ids[y]),
+            )),
+            Some(_) => Ok(()),
+            None => {
+                self.leaders.insert(t, x);
+                Ok(())
+            },
+        }
+    }
+
     fn check_node(&mut self, x: usize, v: &NodeView, others: &[Option<NodeView>], ids: &[String], durable: bool, ctx: &RunCtx) -> Result<(), Violation> {
         let img = &v.img;
         // 6. term monotonicity
@@ -273,6 +300,8 @@ impl Scenario for C01 {
                 Step::CheckQuorum { pick: rng.below(4) as u8 }
             } else if take(w_conc) {
                 let stick = *rng.pick(&[0u64, 50, 80]);
+                let pct = rng.chance(1, 2);
+                let d = 1 + rng.usize_below(2);
                 Step::Concurrent {
                     node: rng.below(nn) as u8,
                     // the message loop (deliver / tick) beside a client proposal or the
@@ -281,7 +310,8 @@ impl Scenario for C01 {
                     b: *rng.pick(&[1u8, 1, 2]),
                     pick_a: rng.below(8) as u16,
                     pick_b: rng.below(8) as u16,
-                    sched: crate::sched::gen_schedule(rng, 48, stick),
+                    sched: if pct { crate::sched::gen_schedule_pct(rng, 12, d) } else { crate::sched::gen_schedule(rng, 48, stick) },
+                    target: u8::from(rng.chance(1, 3)),
                 }
             } else if take(5) {
                 Step::Advance { ms: *rng.pick(&[5u32, 30, 60, 200, 400, 6000]) }
@@ -330,6 +360,33 @@ impl Scenario for C01 {
                 }
                 if rng.chance(2, 3) {
                     frag.push(Step::Heal);
+                    // the deposed leader hears of the new term while a client call runs
+                    if w_conc > 0 && rng.chance(1, 2) {
+                        for _ in 0..rng.range(0, 3) {
+                            frag.push(Step::Deliver { pick: rng.below(4) as u16 });
+                        }
+                        frag.push(Step::Heartbeat { pick: rng.below(4) as u8 });
+                        let sched = if rng.chance(2, 3) {
+                            let d = 1 + rng.usize_below(2);
+                            crate::sched::gen_schedule_pct(rng, 12, d)
+                        } else {
+                            let stick = *rng.pick(&[0u64, 50, 80]);
+                            crate::sched::gen_schedule(rng, 48, stick)
+                        };
+                        frag.push(Step::Concurrent {
+                            node: rng.below(nn) as u8,
+                            a: 0,
+                            b: *rng.pick(&[1u8, 2, 2]),
+                            pick_a: rng.below(8) as u16,
+                            pick_b: 0,
+                            sched,
+                            target: 1,
+                        });
+                        // what the stale leader sent under whatever term it read goes out
+                        for _ in 0..rng.range(2, 6) {
+                            frag.push(Step::Deliver { pick: rng.below(6) as u16 });
+                        }
+                    }
                 }
                 if rng.chance(1, 2) {
                     frag.push(Step::Timeout { node: rng.below(nn) as u8 });
@@ -429,9 +486,34 @@ impl Scenario for C01 {
         let _ = &mut uncommitted_suffix_at_leader_change;
         ctx.fp(&format!("n{n}w{}", case.wal));
 
+        let mut seen_msg = 0u64;
         macro_rules! check {
             ($x:expr) => {{
                 let x: usize = $x;
+                // "at most one node acts as leader in any term": sending AppendEntries
+                // under a term is acting as its leader, whatever role the node shows
+                // when it is looked at afterwards
+                let sent: Vec<(usize, u64)> = {
+                    let g = cl.net.lock().unwrap();
+                    let v = g
+                        .inflight
+                        .iter()
+                        .filter(|m| m.id > seen_msg)
+                        .filter_map(|m| match &m.msg {
+                            Message::AppendEntries(ae) if ae.leader_id == m.from => ids.iter().position(|i| *i == m.from).map(|s| (s, ae.term)),
+                            _ => None,
+                        })
+                        .collect();
+                    seen_msg = seen_msg.max(g.next_id);
+                    v
+                };
+                for (s, t) in sent {
+                    if let Err(vi) = or.acted_as_leader(s, t, &ids) {
+                        out.violation = Some(vi);
+                        out.nontrivial = true;
+                        return out;
+                    }
+                }
                 views[x] = view(&cl, x);
                 if let Some(v) = views[x].as_ref() {
                     if let Err(vi) = or.check_node(x, v, &views, &ids, case.wal, ctx) {
@@ -608,8 +690,29 @@ impl Scenario for C01 {
                     drop(g);
                     ctx.fault_fired("node_isolated");
                 },
-                Step::Concurrent { node, a, b, pick_a, pick_b, sched } => {
-                    let i = *node as usize % n;
+                Step::Concurrent { node, a, b, pick_a, pick_b, sched, target } => {
+                    let mut i = *node as usize % n;
+                    let mut aimed: Option<u64> = None;
+                    if *target == 1 {
+                        let g = cl.net.lock().unwrap();
+                        'find: for j in 0..n {
+                            let Some(nd) = cl.nodes[j].as_ref() else { continue };
+                            if nd.state() != RaftState::Leader {
+                                continue;
+                            }
+                            let t = nd.current_term();
+                            for m in &g.inflight {
+                                if m.to == ids[j] && !g.blocked.iter().any(|(x, y)| *x == m.from && *y == m.to) && msg_term(&m.msg).is_some_and(|mt| mt > t) {
+                                    i = j;
+                                    aimed = Some(m.id);
+                                    break 'find;
+                                }
+                            }
+                        }
+                    }
+                    if aimed.is_some() {
+                        ctx.probe("concurrent_call_on_leader_receiving_higher_term");
+                    }
                     if let Some(nd) = cl.nodes[i].clone() {
                         // messages addressed to this node, taken out of the in-flight set
                         let take_msg = |pick: u16| -> Option<crate::net::InFlight> {
@@ -624,7 +727,10 @@ impl Scenario for C01 {
                             if idxs.is_empty() {
                                 None
                             } else {
-                                let k = idxs[pick as usize % idxs.len()];
+                                let k = match aimed.and_then(|id| idxs.iter().copied().find(|k| g.inflight[*k].id == id)) {
+                                    Some(k) => k,
+                                    None => idxs[pick as usize % idxs.len()],
+                                };
                                 Some(g.inflight.remove(k))
                             }
                         };
